@@ -11,8 +11,10 @@ import (
 	"github.com/bbva/qed/consensus"
 	"github.com/bbva/qed/crypto/hashing"
 	"github.com/bbva/qed/protocol"
+	"github.com/bbva/qed/storage"
 	"github.com/bbva/qed/storage/rocks"
 	"qedverif/cq"
+	"sync/atomic"
 )
 
 // ---- C16, two further scenarios.
@@ -23,6 +25,30 @@ import (
 // (b) a restored directory is given to a real node with a fresh raft log (the documented restore flow): the next
 //
 //	event must be accepted and receive version v+1.
+//
+// lateBackupStore: the store's Backup call first waits (up to 150 ms) for one more write to be persisted, then copies. A
+// backup that still holds the node's apply lock across the copy sees no write in that time; one that has let go of it
+// copies a store that has moved on from the version it recorded. (The window between "version read" and "files copied" is
+// otherwise well under a millisecond.)
+type lateBackupStore struct {
+	storage.ManagedStore
+	writes int64
+}
+
+func (l *lateBackupStore) Mutate(m []*storage.Mutation, meta []byte) error {
+	err := l.ManagedStore.Mutate(m, meta)
+	atomic.AddInt64(&l.writes, 1)
+	return err
+}
+
+func (l *lateBackupStore) Backup(metadata string) error {
+	w0 := atomic.LoadInt64(&l.writes)
+	for t := 0; t < 150 && atomic.LoadInt64(&l.writes) == w0; t++ {
+		time.Sleep(time.Millisecond)
+	}
+	return l.ManagedStore.Backup(metadata)
+}
+
 func backupLiveCmd(out *cq.Out, seed uint64, tier string) {
 	rng := cq.NewRng(seed)
 	rounds := 1
@@ -32,7 +58,7 @@ func backupLiveCmd(out *cq.Out, seed uint64, tier string) {
 	for r := 0; r < rounds; r++ {
 		dir, _ := os.MkdirTemp(out.Dir, "bkl")
 		port := freePorts(1)[0]
-		n, _, err := startNode(nodeOpts{id: 0, name: "bkl", dir: dir, raftPort: port, bootstrap: true, snapThr: 8192, trailing: 10240})
+		n, _, err := startNode(nodeOpts{id: 0, name: "bkl", dir: dir, raftPort: port, bootstrap: true, snapThr: 8192, trailing: 10240, store: &lateBackupStore{ManagedStore: openRocks(dir + "/db")}})
 		if err != nil || !waitLeader(n) {
 			out.Count("backup_skipped_infrastructure", 1)
 			continue
@@ -40,37 +66,41 @@ func backupLiveCmd(out *cq.Out, seed uint64, tier string) {
 		desc := map[string]interface{}{"seed": seed, "round": r}
 		out.Note(desc)
 		var mu sync.Mutex
-		var snaps []*balloon.Snapshot
-		var events [][]byte
+		snaps := map[uint64]*balloon.Snapshot{} // by version: four clients insert at the same time
+		events := map[uint64][]byte{}
 		stop := make(chan struct{})
 		var wg sync.WaitGroup
-		wg.Add(1)
-		go func() {
-			defer wg.Done()
-			for i := 0; ; i++ {
-				select {
-				case <-stop:
-					return
-				default:
+		for g := 0; g < 4; g++ {
+			wg.Add(1)
+			go func(g int) {
+				defer wg.Done()
+				for i := 0; ; i++ {
+					select {
+					case <-stop:
+						return
+					default:
+					}
+					k := 1 + (i+g)%7
+					var evs [][]byte
+					for j := 0; j < k; j++ {
+						evs = append(evs, []byte(fmt.Sprintf("live%d-%d-%d-%d", r, g, i, j)))
+					}
+					s, err := n.AddBulk(evs)
+					if err != nil {
+						return
+					}
+					mu.Lock()
+					for j, sn := range s {
+						snaps[sn.Version] = sn
+						events[sn.Version] = evs[j]
+					}
+					mu.Unlock()
 				}
-				k := 1 + i%7
-				var evs [][]byte
-				for j := 0; j < k; j++ {
-					evs = append(evs, []byte(fmt.Sprintf("live%d-%d-%d", r, i, j)))
-				}
-				s, err := n.AddBulk(evs)
-				if err != nil {
-					return
-				}
-				mu.Lock()
-				snaps = append(snaps, s...)
-				events = append(events, evs...)
-				mu.Unlock()
-			}
-		}()
-		nb := 8
+			}(g)
+		}
+		nb := 12
 		for b := 0; b < nb; b++ {
-			time.Sleep(time.Duration(5+rng.Intn(30)) * time.Millisecond)
+			time.Sleep(time.Duration(1+rng.Intn(8)) * time.Millisecond)
 			if err := n.CreateBackup(); err != nil {
 				out.Violate("C16:backup-failed", "CreateBackup while insertions are in flight: "+err.Error(), desc)
 			}
